@@ -302,7 +302,7 @@ func TestVerifC18(t *testing.T) {
 		return
 	}
 	run := &vwRun{rep: rep, tot: newVwAcc(), sigCount: map[string]int64{}, classSec: map[string]float64{}}
-	run.deadline = rep.Deadline(75*time.Second, 15*time.Minute)
+	run.deadline = rep.Deadline(85*time.Second, 15*time.Minute)
 	tier := rep.Tier
 
 	// determinism self-check: the same cases executed twice give identical observations
